@@ -28,10 +28,12 @@ RULE = ("random ADMGs (2-7 nodes; bidirected chains through conditioned nodes an
         "graphs, non-Variable arguments). A case is non-trivial when it is in the property's scope and either the "
         "conditioning set is non-empty or the true verdict changes when every bidirected edge is deleted.")
 ASSUMPTIONS = [
-    "theorem 4 (augmented-graph separation <-> no m-connecting path, Richardson/Lauritzen) — see Props/C04.lean for which "
-    "direction(s) are proved; any direction listed there as OPEN rests on this check's path oracle only",
-    "clause 'consequently every reported separation is a conditional independence of every compatible model' (global Markov "
-    "property) is not mechanised: decided on small graphs by exact-rational evaluation of a random compatible SCM per case",
+    "OPEN (no theorem): the last clause, 'consequently every reported separation is a conditional independence of every "
+    "compatible model' (global Markov property). The theorems reduce it to the textbook fact for DAGs applied to the canonical "
+    "latent DAG (dsep_iff_dsep_canonical); the check decides it per case on graphs with <=5 nodes by exact-rational evaluation "
+    "of one random compatible discrete SCM",
+    "the theorems need no acyclicity: 'verdict <-> no m-connecting path <-> no d-connecting path in dagOf G' holds for every "
+    "directed mixed graph; acyclicity only makes dagOf G a DAG (dagOf_acyclic)",
     "Python set iteration order inside are_d_separated is assumed irrelevant (the model uses lists); checked by re-running "
     "each query on a re-shuffled construction of the graph",
     "the TypeError branches (non-Variable arguments) have no model counterpart (the model is typed); they are exercised on the "
@@ -365,20 +367,25 @@ def finding_key(case, res):
 
 
 MANIFEST = {
-    "text": ("Proof (partial until theorem 4 is complete in both directions): Lean theorems about the executable model of "
-             "are_d_separated / DSeparationJudgement — symmetry in (a, b), insertion-order independence (congruence under "
-             "NxMixedGraph.__eq__), canonical judgement record, totality on valid queries and the exact error taxonomy, the "
-             "characterisation 'verdict separated <-> b not reachable from a in the augmented ancestral graph minus C' "
-             "against a relational specification, and the classical link between that graph criterion and m-connecting "
-             "paths / d-connection in the canonical latent DAG as far as stated in lean/Y0/Props/C04.lean (full statement "
-             "kept there; directions not proved are marked OPEN). The model is tied to conditional_independencies.py on "
-             "every run by differential correspondence (single queries and whole verdict tables), and an independent "
-             "brute-force path oracle on the canonical latent DAG (networkx.is_d_separator as second opinion) searches "
-             "for a concrete failing input."),
+    "text": ("Proof: 27 Lean theorems about the executable model of are_d_separated / DSeparationJudgement (the code after the "
+             "fix of defect F2). For every graph from_edges can build, all distinct a, b and all C not containing them: the test "
+             "never raises (dsep_total) and says 'separated' exactly when a, b are not connected in the augmented ancestral "
+             "graph minus C (dsep_iff_augmented), which holds exactly when there is no m-connecting path "
+             "(augmented_iff_mconn: the Lauritzen/Richardson theorem, proved from first principles in both directions, "
+             "including walk-to-path shortening), which holds exactly when a, b are d-separated given C in the canonical DAG "
+             "with one fresh latent parent per bidirected edge (mconn_iff_dconn_canonical; dsep_iff_dsep_canonical is the "
+             "property's main clause, dagOf_acyclic shows that graph is a DAG). Symmetry in (a, b) (dsep_symm, for verdicts "
+             "and errors alike), insertion-order independence (dsep_equiv_congr: congruence under NxMixedGraph.__eq__), the "
+             "canonical judgement record (judgement_canonical, judgement_fields, areDSeparated_symm) and the exact error "
+             "taxonomy (dsep_invalid, dsep_endpoint_conditioned) are theorems too. The model is tied to "
+             "conditional_independencies.py on every run by differential correspondence (single queries and whole verdict "
+             "tables); an independent brute-force path oracle on the canonical latent DAG (networkx.is_d_separator as second "
+             "opinion) searches for a concrete failing input. Partial only in the final 'consequently a conditional "
+             "independence of every compatible model' clause, which has no theorem."),
     "note": ("Trusted: Lean kernel; axioms propext/Classical.choice/Quot.sound; the hand-written model and networkx "
-             "(ancestors, has_path) tied to the code by sampling; the specification of m-connection in Spec/SepSpec.lean. "
-             "The 'consequently a conditional independence of every compatible model' clause has no theorem: it is "
-             "decided per case on small graphs by exact-rational evaluation of one random compatible SCM. Clauses of "
-             "theorem 4 marked OPEN rest on the correspondence + oracle only."),
-    "technique": "Lean 4 theorems (closure = ReflTransGen, walk induction) + differential correspondence with are_d_separated + brute-force d-connecting-path oracle on the canonical latent DAG",
+             "(ancestors, has_path) tied to the code by sampling; the definitions of m-connecting path and canonical DAG in "
+             "Spec/SepSpec.lean. OPEN: the global Markov property (reported separation => conditional independence in every "
+             "compatible SCM) is not mechanised; it is decided per case on small graphs by exact-rational evaluation of one "
+             "random compatible SCM."),
+    "technique": "Lean 4 theorems (closure = ReflTransGen; walk induction with re-routing; loop cutting; latent-fork surgery) + differential correspondence with are_d_separated + brute-force d-connecting-path oracle on the canonical latent DAG",
 }
